@@ -165,7 +165,7 @@ def filter_part(ctx, quick):
 def main(ctx):
     quick = ctx.tier == "quick"
     r, sched, samples = export_schedules(ctx, 8 if quick else 64)
-    trace, stats, out = chainlib.run_histories(ctx, quick, extra_args=["-big", "-double-delegate"], sched=sched)
+    trace, stats, out = chainlib.run_histories(ctx, quick, extra_args=["-big", "-double-delegate", "-contracts"], sched=sched)
     if stats is None:
         vlib.driver_failure(ctx, out)
     ok, info = chainlib.validate(ctx, trace, "Trace_Replicas.tla", "Trace_Replicas.cfg", MINE, "C02", describe)
